@@ -39,7 +39,10 @@ type QueryInfo struct {
 	Where  string   `json:"where"` // field compared
 	Where2 string   `json:"where2,omitempty"`
 	Where3 string   `json:"where3,omitempty"`
-	Args   []string `json:"args"` // argument order: field names
+	// WhereConst (form 3): the compared column is tested against this constant of
+	// its enum (written #[Enum.Const] in the comment), the function takes the new value only
+	WhereConst string   `json:"where_const,omitempty"`
+	Args       []string `json:"args"` // argument order: field names
 }
 
 type ColumnInfo struct {
